@@ -66,6 +66,8 @@ mod backend;
 pub use backend::git;
 
 mod change_graph;
+#[cfg(feature = "verif-hooks")]
+pub mod verif;
 mod trailers;
 
 pub mod change;
